@@ -319,14 +319,19 @@ class Image(Traversable):
         count_str = "(" + str(count) + ")"
         delim = " "
         tokens = [name, count_str]
+        new_name = delim.join(tokens)
         match = self._STEREO_FILENAME.match(name)
         if match:
-            tokens = [
+            # the count goes before the L/R ending, which keeps its own 
+            # separator: names that differ in the separator stay different
+            # and do not turn into a left/right pair of each other
+            new_name = "".join((
                 match.group(1),
+                delim,
                 count_str,
+                match.group(2),
                 match.group(3)
-            ]
-        new_name = delim.join(tokens)
+            ))
         return new_name
 
 
@@ -345,6 +350,9 @@ class Image(Traversable):
                 candidate_names[candidate_name] = []
             candidate_names[candidate_name].append(element)
 
+        # every name that is taken: the candidates and the generated ones
+        used_names = set(candidate_names.keys())
+
         for name, subelements in candidate_names.items():
             if len(subelements) == 1:
                 element = subelements[0]
@@ -357,17 +365,18 @@ class Image(Traversable):
                 if i > 1:
                     next_name = self._add_count_to_name(name, i)
                     j = 0
-                    while (next_name in candidate_names.keys()):
+                    while (next_name in used_names):
                         i += 1
                         j += 1
                         next_name = self._add_count_to_name(name, i)
-                        if j > len(candidate_names.keys()):
+                        if j > len(used_names):
                             # This should never(?) happen
                             raise CouldNotDetermineName(
                                 "Unable to determine proper (sanitized) "
                                 f"name for {element.name}. Too many name "
                                 "collisions."
                             )
+                    used_names.add(next_name)
                 else:
                     next_name = name
                 f_set(element, next_name)
